@@ -19,6 +19,7 @@ ROOT = os.path.dirname(os.path.dirname(os.path.abspath(__file__)))
 REPO = os.environ.get("SEGVC_REPO", "/repo")
 A = "src/anyio/_backends/_asyncio.py"
 M = "src/anyio/streams/memory.py"
+B = "src/anyio/streams/buffered.py"
 S = "src/anyio/_core/_synchronization.py"
 
 # (id, property, kind, file, old, new, what)
@@ -68,6 +69,15 @@ MUTANTS = [
     ("C13-broken-test-inverted", "C13", "break", M, "        if not self._state.open_receive_channels:\n            raise BrokenResourceError", "        if self._state.waiting_senders and not self._state.open_receive_channels:\n            raise BrokenResourceError", "send_nowait accepted although every receive clone is closed"),
     ("C12-rename-local", "C12", "harmless", M, "            receive_event, receiver = self._state.waiting_receivers.popitem(last=False)\n            if not receiver.task_info.has_pending_cancellation():\n                receiver.item = item\n                receive_event.set()\n                return", "            ev, rcv = self._state.waiting_receivers.popitem(last=False)\n            if not rcv.task_info.has_pending_cancellation():\n                rcv.item = item\n                ev.set()\n                return", "locals renamed"),
     ("C13-close-helper-refactor", "C13", "harmless", M, "                send_events = list(self._state.waiting_senders.keys())\n                for event in send_events:\n                    event.set()\n", "                blocked = list(self._state.waiting_senders.keys())\n                for ev in blocked:\n                    ev.set()\n", "locals of the wake-all loop renamed"),
+    # ---------------------------------------------------------------- C16 buffered byte stream
+    ("C16-offset-plus-2", "C16", "break", B, "            offset = max(len(self._buffer) - delimiter_size + 1, 0)", "            offset = max(len(self._buffer) - delimiter_size + 2, 0)", "delimiter split across two chunks is missed"),
+    ("C16-delimiter-not-consumed", "C16", "break", B, "                del self._buffer[: index + len(delimiter) :]", "                del self._buffer[:index]", "the delimiter stays in the buffer"),
+    ("C16-surplus-off-by-one", "C16", "break", B, "                self._buffer.extend(chunk[max_bytes:])", "                self._buffer.extend(chunk[max_bytes + 1 :])", "one byte of an oversized object-stream chunk is dropped"),
+    ("C16-exactly-returns-whole-buffer", "C16", "break", B, "                retval = self._buffer[:nbytes]\n                del self._buffer[:nbytes]", "                retval = self._buffer[:]\n                del self._buffer[:]", "receive_exactly hands out more than nbytes"),
+    ("C16-limit-check-later", "C16", "harmless", B, "            if len(self._buffer) >= max_bytes:\n                raise DelimiterNotFound(max_bytes)", "            if len(self._buffer) > max_bytes + delimiter_size:\n                raise DelimiterNotFound(max_bytes)", "DelimiterNotFound raised later than necessary: still only when the delimiter is absent from the first max_bytes bytes, so the property holds"),
+    ("C16-receive-ignores-max-bytes", "C16", "break", B, "            chunk = bytes(self._buffer[:max_bytes])\n            del self._buffer[:max_bytes]", "            chunk = bytes(self._buffer)\n            del self._buffer[:]", "receive returns more than max_bytes"),
+    ("C16-rename-local", "C16", "harmless", B, "            chunk = bytes(self._buffer[:max_bytes])\n            del self._buffer[:max_bytes]\n            return chunk", "            head = bytes(self._buffer[:max_bytes])\n            del self._buffer[:max_bytes]\n            return head", "local renamed"),
+    ("C16-len-via-variable", "C16", "harmless", B, "                del self._buffer[: index + len(delimiter) :]", "                del self._buffer[: index + delimiter_size]", "same slice written with the cached length"),
 ]
 
 
